@@ -435,3 +435,56 @@ func zzH_C19_opts() {
 	zzv.Assert("valid-walker-option-accepted", err == nil)
 	zzv.Assert("walker-options-as-written", opts.file == f && opts.dir == d && opts.hidden == h && opts.follow == fo)
 }
+
+func init() {
+	zzHarnesses["zzH_C19_args"] = zzH_C19_args
+}
+
+// H19.args: the walker options as the command line gives them reach readFiles unchanged: --walker as written, --walker-skip exactly the names listed (it replaces the default
+// list, and a later occurrence replaces an earlier one).
+func zzH_C19_args() {
+	names := []string{"target", ".git", "a/b", "", "x"}
+	mk := func() (string, []string) {
+		n := zzv.Choose(0, 2)
+		str := ""
+		var want []string
+		for i := 0; i < n; i++ {
+			w := names[zzv.Choose(0, len(names)-1)]
+			if i > 0 {
+				str += ","
+			}
+			str += w
+			if w != "" {
+				want = append(want, w)
+			}
+		}
+		return str, want
+	}
+	args := []string{"--walker", "dir,hidden"} // --walker-root is validated against the file system (os.Stat): left out
+	s1, want := mk()
+	form := zzv.Choose(0, 2)
+	switch form {
+	case 0:
+		args = append(args, "--walker-skip", s1)
+	case 1:
+		args = append(args, "--walker-skip="+s1)
+	default:
+		var s2 string
+		s2, want = mk()
+		args = append(args, "--walker-skip", s1, "--walker-skip="+s2)
+	}
+	opts := defaultOptions()
+	idx := 0
+	err := parseOptions(&idx, opts, args)
+	zzv.Reach("parsed")
+	zzv.Assert("walker-arguments-accepted", err == nil)
+	if err != nil {
+		return
+	}
+	same := len(opts.WalkerSkip) == len(want)
+	for i := 0; same && i < len(want); i++ {
+		same = opts.WalkerSkip[i] == want[i]
+	}
+	zzv.Assert("walker-skip-is-exactly-the-names-listed", same)
+	zzv.Assert("walker-options-as-given", opts.WalkerOpts.dir && opts.WalkerOpts.hidden && !opts.WalkerOpts.file && !opts.WalkerOpts.follow)
+}
